@@ -36,7 +36,8 @@ def build_c06(rng: random.Random, seed: int, root: str):
         "epsilon": float(f"{P.loguniform(rng, 1e-7, 1e-3):.3g}") if converge else 1e-13,
         "convergence_test": "max_diff" if converge else rng.choice(["span", "max_diff"]),
         "shuffle_states": shuffle,
-        "random_seed": rng.randint(0, 2**31 - 1),
+        # (seeds on the boundaries of the accepted range now and then: 0 is falsy, 2**31-1 the largest)
+        "random_seed": rng.choice([0, 0, 1, 2**31 - 1]) if rng.random() < 0.12 else rng.randint(0, 2**31 - 1),
     }
     world = {"problem": prob, "solver": {"cls": "SA", "kw": kw}, "ckpt": {"f": 0, "m": 1, "async": True}}
     ks = [rng.randint(1, 4) for _ in range(rng.choice([1, 2, 3]))]
